@@ -13,8 +13,9 @@ func init() { register("C16", c16) }
 
 // c16Tables records, for the seed of the case, the first k raw Int63 values of the global
 // source, and for every stream position p the value rand.Float64() and gostats.Exp(1.0/0.1)
-// return when they start at p (each consumes exactly one raw value unless float64(x)/2^63
-// rounds to 1, x >= 2^63-512, which the judge's model would notice as a shifted position).
+// return when they START at position p (the source is re-seeded and advanced by p values for
+// every entry, so the tables stay aligned with the stream even if a Float64 call retries
+// because float64(x)/2^63 rounds to 1, x >= 2^63-512).
 func c16Tables(seed int64, k int) (raw, ftab, exptab *Sexp, rawv []int64) {
 	rand.Seed(seed)
 	raw = L()
@@ -23,19 +24,80 @@ func c16Tables(seed int64, k int) (raw, ftab, exptab *Sexp, rawv []int64) {
 		rawv = append(rawv, x)
 		raw.List = append(raw.List, A(fmt.Sprintf("%d", x)))
 	}
-	rand.Seed(seed)
 	ftab = L()
-	for i := 0; i < k; i++ {
-		ftab.List = append(ftab.List, F(rand.Float64()))
-	}
-	rand.Seed(seed)
 	exptab = L()
 	lambda := 1.0 / 0.1
-	for i := 0; i < k; i++ {
-		exptab.List = append(exptab.List, F(gostats.Exp(lambda)))
+	// fast path: while no value of the stream can trigger a retry, a call started at p consumes
+	// exactly the value at p, so the sequential pass IS the per-position table
+	retry := false
+	for _, x := range rawv {
+		if x >= (1<<63)-512 {
+			retry = true
+		}
+	}
+	if !retry {
+		rand.Seed(seed)
+		for i := 0; i < k; i++ {
+			ftab.List = append(ftab.List, F(rand.Float64()))
+		}
+		rand.Seed(seed)
+		for i := 0; i < k; i++ {
+			exptab.List = append(exptab.List, F(gostats.Exp(lambda)))
+		}
+	} else {
+		for p := 0; p < k; p++ {
+			rand.Seed(seed)
+			for j := 0; j < p; j++ {
+				rand.Int63()
+			}
+			ftab.List = append(ftab.List, F(rand.Float64()))
+			rand.Seed(seed)
+			for j := 0; j < p; j++ {
+				rand.Int63()
+			}
+			exptab.List = append(exptab.List, F(gostats.Exp(lambda)))
+		}
 	}
 	rand.Seed(seed)
 	return
+}
+
+// fakeSource replays a given list of Int63 values: math/rand's own Intn / Float64 code is run
+// on crafted streams (values that trigger the rejection loop of Int31n and the retry of Float64).
+type fakeSource struct {
+	vals []int64
+	pos  int
+}
+
+func (f *fakeSource) Int63() int64 {
+	if f.pos >= len(f.vals) {
+		panic("fake source exhausted")
+	}
+	v := f.vals[f.pos]
+	f.pos++
+	return v
+}
+func (f *fakeSource) Seed(int64) {}
+
+// c16RandLib: ((gen randlib) (rawin (x ...)) (plan (b ...)))  b = 0: Float64, b > 0: Intn(b)
+func c16RandLib(c *Sexp) *Sexp {
+	src := &fakeSource{}
+	for _, a := range c.Get("rawin").List {
+		var v int64
+		fmt.Sscanf(a.Atom, "%d", &v)
+		src.vals = append(src.vals, v)
+	}
+	r := rand.New(src)
+	ints := []int{}
+	floats := L()
+	for _, b := range c.IntList("plan") {
+		if b == 0 {
+			floats.List = append(floats.List, F(r.Float64()))
+		} else {
+			ints = append(ints, r.Intn(b))
+		}
+	}
+	return L(KV("ints", Ints(ints)), KV("floats", floats), KV("consumed", I(src.pos)))
 }
 
 // c16Consumed: number of raw values consumed since the last rand.Seed(seed), found by
@@ -67,12 +129,15 @@ func c16Indexes(t *tree.Tree, obs *Sexp) {
 		tidx.List = append(tidx.List, L(A(n.Name()), I(i)))
 	}
 	bits := L()
+	lens := []int{}
 	for _, e := range t.Edges() {
 		bs := e.Bitset()
 		if bs == nil {
 			bits.List = append(bits.List, L(B(false), L()))
+			lens = append(lens, 0)
 			continue
 		}
+		lens = append(lens, int(bs.Len()))
 		set := []int{}
 		for i := uint(0); i < bs.Len(); i++ {
 			if bs.Test(i) {
@@ -81,7 +146,7 @@ func c16Indexes(t *tree.Tree, obs *Sexp) {
 		}
 		bits.List = append(bits.List, L(B(true), Ints(set)))
 	}
-	obs.List = append(obs.List, KV("tipindex", Strs(names)), KV("tipidx", tidx), KV("bits", bits))
+	obs.List = append(obs.List, KV("tipindex", Strs(names)), KV("tipidx", tidx), KV("bits", bits), KV("bitlens", Ints(lens)))
 }
 
 func c16(c *Sexp) *Sexp {
@@ -89,6 +154,9 @@ func c16(c *Sexp) *Sexp {
 	n := c.Int("n")
 	rooted := c.Bool("rooted")
 	obs := L()
+	if gen == "randlib" {
+		return c16RandLib(c)
+	}
 	if gen == "topologies" {
 		var trees []*tree.Tree
 		var err error
